@@ -3,7 +3,7 @@ from common import *
 
 CLAIMED = True
 LEVEL = 'proof'
-LEVEL_TEXT = ('Proof: 25 Coq theorems (coq/Properties/C11.v), for every usize width (the model is parameterised by the class Usize, usize::MAX >= 65535; '
+LEVEL_TEXT = ('Proof: 26 Coq theorems (coq/Properties/C11.v), for every usize width (the model is parameterised by the class Usize, usize::MAX >= 65535; '
               'instances usize16/usize32/usize64), over the Gallina model of RawData::load/store for RawU1..RawU32 in both '
               'data orders and of RawDataIterator (coq/Model/Rawdata.v: bit_position, shift/mask expressions as written with u8 truncation, '
               'from/to_le/be_bytes, index.checked_mul(N), saturating nth, size_hint): store-then-load returns the value; every other '
